@@ -78,6 +78,31 @@ def catalogue():
     # exception-class-without-module while the connection is dropped; judged like any raising method once it is not
     for i, c in enumerate(UNNAMEABLE):
         cat.append(dict(kind="raise", cls=c, msg=MSGS[(7 * i + 1) % len(MSGS)], r5=1))
+    cat += choice_catalogue()
+    return cat
+
+
+CHOICE_TOKS = ["int", "neg", "float", "bytes", "longint", "longneg", "none"]
+
+
+def choice_catalogue():
+    """a parameter (or, on the caller, a result) governed by a ChoiceOf with a STRICT alternative (str / bool / None; alone they turn a
+    wrong primitive token into a protocol error), any order / nesting of the alternatives, directly and inside list / dict / tuple /
+    set / Optional: every primitive token kind none of the alternatives accepts (ill-typed: that call fails with a Violation) and
+    every one that some alternative accepts (fault-free).  Sent by a peer that does not pre-check (no RemoteInterface on the caller)."""
+    from harness import c10_impl as impl
+    cat = []
+    for si, (shape, c, w, acc) in enumerate(impl.CHOICE_SHAPES):
+        n = 0
+        for tok in CHOICE_TOKS:
+            if tok in acc:
+                cat.append(dict(kind="choice-ok", shape=shape, tok=tok, r7=1))
+                continue
+            cat.append(dict(kind="illtyped-choice", shape=shape, tok=tok, r7=1))
+            # (Optional means something on a parameter only: RemoteMethodSchema unwraps it; as a result constraint it accepts anything)
+            if (n + si) % 3 == 0 and not shape.startswith("optional"):
+                cat.append(dict(kind="result-choice", shape=shape, tok=tok, r7=1))
+            n += 1
     return cat
 
 
@@ -99,6 +124,7 @@ DEEP_NAMES = ["Mro29", "Mro30", "Mro31", "Mro32", "Mro33", "Mro35", "Mro64", "Mr
 ONE_WAY_INNER = [dict(kind="unserializable", depth=0), dict(kind="unserializable", depth=2, sibling=[7, 8]),
                  dict(kind="slicer-raises", depth=1, n=1), dict(kind="arg-surrogate", depth=1),
                  dict(kind="illtyped", depth=0), dict(kind="illtyped", depth=2), dict(kind="unknown-method"),
+                 dict(kind="illtyped-choice", shape="None|bytes", tok="int"), dict(kind="illtyped-choice", shape="list of str|None", tok="bytes"),
                  dict(kind="unknown-method-typed", nested=True), dict(kind="unknown-object"),
                  dict(kind="raise", cls="ValueError", msg=["ascii", 5]), dict(kind="raise", cls="BadStrError", msg=["ascii", 3]),
                  dict(kind="raise", cls="NoModError", msg=["ascii", 4]),       # (no error is ever built for a one-way call: contained)
@@ -201,7 +227,12 @@ def run(ctx):
                 "judged on the siblings, the connection, the methods that ran and the OPEN counters); exception classes with a long ancestry "
                 "(layered hierarchies with an MRO of 29-35, 64, 65, 129, 257 classes, 40 mixins) raised directly and relayed: every class of the "
                 "MRO must reach the caller and answer check()); exception classes reflect.qual cannot name (the class itself / an ancestor "
-                "has __module__ None: known finding exception-class-without-module, fixed witnesses + catalogue + one-way), every batch under one of 17 settings of the four Tub logging "
+                "has __module__ None: known finding exception-class-without-module, fixed witnesses + catalogue + one-way); a parameter / a caller-side "
+                "result constraint that is a ChoiceOf with a STRICT alternative (None / str / bool, 14 shapes: either order, three alternatives, "
+                "nested ChoiceOf, Optional, inside list / list of list / dict value / tuple / set; + a control without strict alternative) hit by "
+                "each of the 7 primitive token kinds (INT NEG FLOAT STRING LONGINT LONGNEG, none) by a peer that does not pre-check: ill-typed "
+                "ones must fail that call only (remote / local Violation), accepted ones must run (fixed witnesses at every position + one-way in "
+                "the corpus, a ninth of the family per quick run, all of it in thorough), every batch under one of 17 settings of the four Tub logging "
                 "options (logLocalFailures / logRemoteFailures on caller and callee, or no Tub) and with / without the "
                 "negotiated vocabulary table, both settings of "
                 "unsafeTracebacks and expose-remote-exception-types; non-trivial = distinct batch in which every Deferred "
@@ -300,8 +331,8 @@ def trunc_expect(text, limit):
     return chk
 
 
-REMOTE_VIOLATION = ("illtyped", "unknown-method-typed", "unknown-object", "result-violates-callee")
-LOCAL_VIOLATION = ("unserializable", "slicer-raises", "result-violates-caller", "arg-surrogate")
+REMOTE_VIOLATION = ("illtyped", "illtyped-choice", "unknown-method-typed", "unknown-object", "result-violates-callee")
+LOCAL_VIOLATION = ("unserializable", "slicer-raises", "result-violates-caller", "result-choice", "arg-surrogate")
 
 
 def judge_faulty(impl, spec, d, opts):
@@ -453,8 +484,8 @@ def judge_batch(ctx, impl, specs, opts, r, sigsuffix=""):
             want = s["v"] if s["kind"] == "ok" else s["v"] + 1
             if d is None or not d["ok"] or d["value"] != want:
                 bad.append(("oracle/sibling-affected", "fault-free call %d (expects %r) got %r" % (i, want, short(d))))
-        elif s["kind"] in ("ok-vocab", "vocab-method", "typed-ok"):
-            want = (impl.vocab_value(s) if s["kind"] == "ok-vocab" else 3 if s["kind"] == "typed-ok" else
+        elif s["kind"] in ("ok-vocab", "vocab-method", "typed-ok", "choice-ok"):
+            want = (impl.vocab_value(s) if s["kind"] == "ok-vocab" else 3 if s["kind"] == "typed-ok" else 1 if s["kind"] == "choice-ok" else
                     [s["i"], [(impl.message(["vocab", s["i"]]).replace("-", "_"), 1)]])
             if d is None or not d["ok"] or d["value"] != want:
                 bad.append(("oracle/sibling-affected", "fault-free call %d (%s, expects %r) got %r" % (i, s["kind"], want, short(d))))
@@ -482,7 +513,8 @@ def judge_batch(ctx, impl, specs, opts, r, sigsuffix=""):
                     % (impl.shared_value(opts.get("later_shared", "mixed")), short(lt[1]))))
     runs = {"ok": "echo", "ok-add": "add", "shared": "echo", "ok-vocab": "echo", "vocab-method": "call", "typed-ok": "ints",
             "typed-raise": "tboom", "mixed-keys": "echo", "dict-keys": "echo", "ok-badrepr": "echo", "raise-badrepr": "boom", "raise": "boom", "raise-noargs": "boom_noargs",
-            "result-violates-callee": "wrongresult", "result-violates-caller": "text", "result-unsendable": "unsendable_result"}
+            "result-violates-callee": "wrongresult", "result-violates-caller": "text", "result-unsendable": "unsendable_result",
+            "choice-ok": "choice", "result-choice": "echo"}
     want_exec = []
     for s in map(base, specs):
         if s["kind"] in runs:
@@ -520,11 +552,11 @@ def run_one(ctx, impl, specs, opts, tag, sigsuffix=""):
         r = impl.run_batch(specs, opts)
     fine = judge_batch(ctx, impl, specs, opts, r, sigsuffix)
     nontrivial = all((s["kind"] == "only" and d is None) or
-                     (f and d is not None and (not d["ok"] or s["kind"] in ("ok", "ok-add", "shared", "mixed-keys", "dict-keys", "ok-badrepr", "multi", "ok-vocab", "vocab-method", "typed-ok")))
+                     (f and d is not None and (not d["ok"] or s["kind"] in ("ok", "ok-add", "shared", "mixed-keys", "dict-keys", "ok-badrepr", "multi", "ok-vocab", "vocab-method", "typed-ok", "choice-ok")))
                      for s, d, f in zip(specs, r["results"], r["fired"]))
     ctx.case([tag, specs, opts], nontrivial=nontrivial and fine)
     for s, d in zip(specs, r["results"]):
-        if s["kind"] not in ("ok", "ok-add", "shared", "ok-vocab", "vocab-method", "typed-ok"):
+        if s["kind"] not in ("ok", "ok-add", "shared", "ok-vocab", "vocab-method", "typed-ok", "choice-ok"):
             ctx.hist("fault_kind", s["kind"] if s["kind"] != "only" else "one-way " + s["inner"]["kind"])
             ctx.hist("faulty_outcome", "one-way" if s["kind"] == "only" and d is None else "not-fired" if d is None else "ok" if d["ok"] else
                      ("wrapped " if d["wrapped"] else "") + ("remote " if d["copied"] else "local ") +
@@ -590,6 +622,11 @@ def sweep(ctx, impl):
                 if ctx.tier != "thorough" and f.get("r6") and (pos != ci % 3 or (ci + ctx.seed) % 3):
                     continue        # quick: a third of those of round 6 (rotating with VERIF_SEED), each at one position (rotating);
                                     # a fixed witness of each family is in the corpus
+                if f.get("r7") and ((pos != ci % 3 or (ci + ctx.seed) % 9) if ctx.tier != "thorough" else
+                                    oi not in ((ci + pos) % 4, (ci + pos + 2) % 4)):
+                    continue        # round 7 (ChoiceOf with a strict alternative): quick: a ninth (rotating with VERIF_SEED), each at one position
+                                    # (rotating); thorough: every entry at every position under two of the four option sets (rotating);
+                                    # fixed witnesses of the family (every position, both sides, one-way) are in the corpus
                 specs = [dict(kind="ok", v=100 + i) if i % 2 == 0 else dict(kind="ok-add", v=200 + i) for i in range(3)]
                 specs[pos] = f
                 # after every per-call fault: calls whose arguments share a container, in the same batch and later
@@ -649,7 +686,7 @@ def sweep(ctx, impl):
                     **dims(ctx.rng.randrange(51)))
         r = run_one(ctx, impl, specs, opts, "random")
         kept.append((specs, opts, r))
-        ctx.hist("faults_per_batch", sum(1 for s in specs if s["kind"] not in ("ok", "ok-add", "shared", "ok-vocab", "vocab-method", "typed-ok")
+        ctx.hist("faults_per_batch", sum(1 for s in specs if s["kind"] not in ("ok", "ok-add", "shared", "ok-vocab", "vocab-method", "typed-ok", "choice-ok")
                                          and not (s["kind"] == "multi" and isinstance(multi_expect(s), tuple))))
     ctx.sample(dict(kind="random", specs=kept[-1][0], opts=kept[-1][1], observed=[short(x) for x in kept[-1][2]["results"]]))
     ctx.extra["batches"] = len(kept)
@@ -781,6 +818,8 @@ def call_tree(impl, spec):
         args = [impl.nest(spec["depth"], impl.Unsendable(), spec.get("sibling"))]
     elif k == "slicer-raises":
         args = [impl.nest(spec["depth"], impl.RaisingSlicer(spec["n"]))]
+    elif k in ("illtyped-choice", "choice-ok", "result-choice"):
+        args = [impl.choice_arg(spec)]
     elif k == "illtyped":
         args = [{0: "notalist", 1: [1, "x", 3], 2: [[[1]], "x"], 3: [[[1]], [["x"]], [[2]]]}[spec["depth"]]]
     elif k == "mixed-keys":
